@@ -86,8 +86,11 @@ def check_variant_tails(rep, drv, case, rng):
     if data is None:
         return None
     ref = codec.impl_decode('ber', case.t, data, case.schema)
-    if not (ref[0] == 'ok' and ref[2] == b''):
-        rep.count('variant-skipped-not-accepted')      # C09's business
+    if not (ref[0] == 'ok' and ref[2] == b'' and gen.val_equiv(case.t, ref[1], case.v)):
+        # a valid encoding (written by the Lean variant writer from the X.690 relation) with the empty tail: the value of e
+        # and nothing left is what the property promises here too (that every form decodes at all is C09's statement)
+        rep.fail('tail-not-preserved:variant-empty-tail', 'decode(e) for a BER variant e = %s: %s' % (data.hex()[:160], ref[:3] if ref[0] != 'ok' else (
+            'ok', gen.val_sexp(ref[1])[:120], ref[2].hex()[:40])), dict(case.replay, kind='variant-tail', bytes=data.hex(), tail='', script=script))
         return None
     for tail in tails(rng, b'\x04\x03abc'):
         r = codec.impl_decode('ber', case.t, data + tail, case.schema)
@@ -226,8 +229,8 @@ def run(rep, tier, seed):
     # the encoder's header loop (end-of-octets only after an indefinite header) and the decoder's length block are
     # translated from the source on every run (gen/py2lean.py); the translations are run against the real code here
     from harness import kernels
-    kernels.obligations(rep, ['wrapTags', 'decodeLength'])
-    kernels.check(rep, drv, seed, 200 if tier == 'quick' else 10000, which=('wrapTags', 'decodeLength'))
+    kernels.obligations(rep, ['wrapTags', 'decodeLength', 'decodeTag'])
+    kernels.check(rep, drv, seed, 200 if tier == 'quick' else 10000, which=('wrapTags', 'decodeLength', 'decodeTag'))
     n = 1500 if tier == "quick" else 30000
     rep.rule = ('valid encodings (all codecs/modes) x tails {empty, zeros, another encoding, garbage, partial headers}; '
                 'streams of 1..5 encodings back to back on BytesIO / seekable / non-seekable streams; '
